@@ -16,4 +16,5 @@ func init() {
 	mut("C05", "tls-for-wrong-host", "proxy.go", "p.mitm.TLSForHost(req.Host))", "p.mitm.TLSForHost(req.URL.Hostname()))", "C05.R6", "CONNECT authority")
 	mut("C05", "handoff-before-handshake-check", "proxy.go", "\t\t\tif err := tlsconn.Handshake(); err != nil {\n\t\t\t\tp.mitm.HandshakeErrorCallback(req, err)\n\t\t\t\treturn err\n\t\t\t}\n", "\t\t\tif err := tlsconn.Handshake(); err != nil {\n\t\t\t\tp.mitm.HandshakeErrorCallback(req, err)\n\t\t\t}\n", "C05.R3", "successful handshake")
 	twin("C05", "tls-assert-switch", "proxy.go", "\tif tconn, ok := conn.(*tls.Conn); ok {\n\t\tsession.MarkSecure()\n\n\t\tcs := tconn.ConnectionState()\n\t\treq.TLS = &cs\n\t}\n", "\ttconn, isTLS := conn.(*tls.Conn)\n\tif isTLS {\n\t\tstate := tconn.ConnectionState()\n\t\tsession.MarkSecure()\n\t\treq.TLS = &state\n\t}\n")
+	mut("C05", "shaped-tls-not-marked-secure", "proxy.go", "\t\tif sconn, ok := wrconn.(*tls.Conn); ok {\n\t\t\tsession.MarkSecure()\n", "\t\tif sconn, ok := wrconn.(*tls.Conn); ok {\n", "C05.R2", "marks its session secure (shaped")
 }
